@@ -5,7 +5,7 @@
 From Coq Require Import List String Bool Permutation.
 Import ListNotations.
 From DI Require Import Syntax Tokens Bounds Param Subs Superset Substitute Spec RustSem Group Validate IMap Hygiene Dispatch Examples ExamplesGroup.
-From DI.proofs Require Import Basics SupersetSound SupersetExact SupersetComplete SubstituteProofs BoundsProofs DispatchProofs GroupProofs ParamProofs ParamAlpha RustSemProofs ValidateProofs IMapProofs HygieneProofs.
+From DI.proofs Require Import Basics SupersetSound SupersetExact SupersetComplete SupersetWf SubstituteProofs BoundsProofs DispatchProofs GroupProofs ParamProofs ParamAlpha RustSemProofs ValidateProofs IMapProofs HygieneProofs.
 
 (* ===================================================================================== *)
 (* C09 -- header generalisation is exact first-order matching                             *)
@@ -80,6 +80,12 @@ Example C09_complete_nonvacuous :
 Proof. vm_compute. repeat split. discriminate. Qed.
 Print Assumptions C09_complete_nonvacuous.
 
+(* every substitution the matcher reports is well-formed: one entry per parameter, keys are
+   parameter identifiers, Expr values are expressions (closure principle [sup_closure]) *)
+Theorem C09_reported_wf : forall a b s, sup a b = Some s -> wf_subs s.
+Proof. exact sup_wf. Qed.
+Print Assumptions C09_reported_wf.
+
 (* ===================================================================================== *)
 (* C10 -- bound re-expression over a more general header is exact                         *)
 (* ===================================================================================== *)
@@ -106,6 +112,15 @@ Proof.
   intros s b t W. exact (subst_key_roundtrip s b t (wf_subsb_sound s W)).
 Qed.
 Print Assumptions C10_roundtrip.
+
+(* C09 composed with C10: the round trip needs no side condition on substitutions that the
+   matcher itself reported *)
+Theorem C10_roundtrip_of_reported : forall a b s bounded trait_,
+  sup a b = Some s -> stable_key s bounded trait_ = true ->
+  forall rb rt, In (rb, rt) (subst_key s bounded trait_) ->
+  apply s rb = bounded /\ apply s rt = trait_.
+Proof. exact sup_then_roundtrip. Qed.
+Print Assumptions C10_roundtrip_of_reported.
 
 (* non-vacuity: (_ŠČ0, _ŠČ1) over (Vec<_ŠČ0>, Vec<_ŠČ0>), key Option<Vec<_ŠČ0>>: D<Vec<_ŠČ0>> *)
 Example C10_nonvacuous :
